@@ -21,6 +21,7 @@ type Host struct {
 	// CloseAfterScript makes the host close once the script is done (EOF towards the gateway).
 	CloseAfterScript bool
 	Silent           bool // accept but never write
+	L                *sim.Listener
 }
 
 type HostConn struct {
@@ -39,7 +40,7 @@ type HostConn struct {
 func (w *World) AddHost(addr string, script [][]byte) *Host {
 	h := &Host{W: w, Addr: addr, Script: script}
 	w.Host[addr] = h
-	w.S.ListenOwned(addr, func(e *sim.End) {
+	h.L = w.S.ListenOwned(addr, func(e *sim.End) {
 		hc := &HostConn{H: h, End: e, AccSeq: w.S.Seq}
 		h.Conns = append(h.Conns, hc)
 		idx := len(h.Conns) - 1
